@@ -2,6 +2,7 @@ import LarkVerif.LRCheck
 import LarkVerif.LRComplete
 import LarkVerif.FirstSets
 import LarkVerif.LALRTable
+import LarkVerif.LRClosedCheck
 /-! # C02 — LALR(1): conflicts reported, accepted language sound and (conflict-free) exact -/
 namespace Props.C02
 open EarleyProto LRProto
@@ -24,6 +25,14 @@ theorem driver_complete {G : Grammar} {T : Table} {s0 eof : Nat} {la} (hC : Tabl
     (toks : List Nat) (h : DerivesSeq G [Sym.nt s0] toks) :
     ∃ F0, ∀ F, F0 < F → ∃ v, parse T eof F toks = Outcome.accept v :=
   parse_complete hC toks h
+
+/-- **Completeness, for every sentence, of any table that passes the executable completeness certificate** `checkClosed` (closure with computed
+    NULLABLE/FIRST, goto, reduce-on-every-lookahead, start, accept, over an item-lookahead annotation) — evaluated by the compiled driver on lark's
+    *own* table for each generated conflict-free grammar. -/
+theorem certified_table_accepts_every_sentence (G : Grammar) (F : FTable) (T : FN) (A : Ann) (s0 eof : Nat)
+    (h : checkClosed G F T A s0 eof = true) (toks : List Nat) (hd : DerivesSeq G [Sym.nt s0] toks) :
+    ∃ F0, ∀ fuel, F0 < fuel → ∃ v, parse F.toTable eof fuel toks = Outcome.accept v :=
+  checked_table_complete G F T A s0 eof h toks hd
 
 /-- **Conflict reporting** (decision logic of `compute_lalr1_states`): construction fails exactly when some state has a lookahead with two or more
     candidate rules none of which has strictly greatest priority. -/
